@@ -187,7 +187,7 @@ fn main() {
                 .build()
                 .unwrap();
             rt.block_on(async {
-                if let Err(e) = codec_world::run_cases(&cases, &scratch, &mut out).await {
+                if let Err(e) = codec_world::run_cases(&cases, &scratch, &mut out, &known).await {
                     eprintln!("harness error: {e:?}");
                     std::process::exit(3);
                 }
